@@ -558,11 +558,19 @@ func (e *CoreExtension) functionRange(args ...interface{}) (interface{}, error) 
 		// For positive step, include the end value (end is inclusive)
 		for i := start; i <= end; i += step {
 			result = append(result, i)
+			if i > math.MaxInt-step {
+				// the next value does not fit an int: the counter would wrap
+				// around and the loop never reach its bound
+				break
+			}
 		}
 	} else {
 		// For negative step, include the end value (end is inclusive)
 		for i := start; i >= end; i += step {
 			result = append(result, i)
+			if i < math.MinInt-step {
+				break
+			}
 		}
 	}
 
